@@ -197,7 +197,7 @@ theorem sat_restorePart_foot {w : World} {infos : List (Path × Option Info)} (h
     exact ⟨k, rfl, hk, fun e => hroot (e ▸ hm), hm⟩
   unfold restorePart
   apply Sat.bind
-  apply (sat_classify_any S (infos := infos) infos {} w w (fun _ h => h) (SameFS.refl w) (PlanOK.empty _)).mono
+  apply (sat_classify_any S (infos := infos) infos {} w w (fun _ h => h) (SameFS.refl w) hg (PlanOK.empty _)).mono
   intro w1 r ⟨hs1, hplan⟩
   have h1 : S.Foot (BaseFoot (S.view .backup w.fs) infos) (FileFoot (S.view .backup w.fs) infos) (fun _ => False) w w1 := Sim.Foot.of_same hg hs1
   cases r with
